@@ -59,7 +59,8 @@ def run_case(case):
             R = SE.target_from_sdl(text)
         except SE.Rejected as e:
             if T is not None:
-                kind = 'cycle' if 'cycle' in str(e).lower() or 'depend' in str(e).lower() else 'other'
+                import re
+                kind = re.sub(r"'[^']*'", "'_'", str(e).split('\n')[0])[:70]
                 out.append((f'variant-rejected:{kind}',
                             f'canonical order is accepted, this order is rejected: {e}\n'
                             f'--- variant ---\n{text}', text))
